@@ -54,6 +54,7 @@ def run(prog, chk):
     chk.decided += ["the 'this is the default source' flag handed to the outline compiler is 'the source's index equals the instantiator's default source index': every other master, sparse layer or "
                     "stand-alone UFO alike, gets placeholder glyphs for component bases it lacks, so composites keep their components in every master (R09.12)"]
     chk.decided += ["the decomposition helper draws every component it removes, whatever its transformation: what a master contributes does not depend on that master's own transform values (R09.13 = R15.1b)"]
+    chk.decided += ["the per-run memo of component locations holds, for a base glyph, the answer of the recursion for that glyph: a memo hit contributes what a miss contributes (R09.14 = R13.11)"]
     chk.not_decided += ["that cu2qu yields equal segment counts for all masters (fontTools)", "point compatibility of the output itself", "custom filters supplied by the caller"]
     chk.guard(r091, prog, chk)
     chk.guard(r092, prog, chk)
@@ -69,6 +70,7 @@ def run(prog, chk):
     chk.guard(r0912, prog, chk)
     from .c15 import r151b
     chk.guard(r151b, prog, chk, "R09.13")
+    chk.guard(check_location_memo_complete, prog, chk, "R09.14")
     from .c08 import check_memo_decorators
     chk.guard(lambda prog_, chk_: (check_memo_decorators(prog_, chk_, "R09.8", only_modules=("ufo2ft.instantiator", "ufo2ft.filters", "ufo2ft.preProcessor")), None)[1], prog, chk)
 
@@ -618,7 +620,42 @@ def r0912(prog, chk):
     chk.minimum("R09.12", 1)
 
 
+# ----------------------------------------------------------------------------- R09.14 (= R13.11)
+def check_location_memo_complete(prog, chk, rule):
+    """The per-run memo of locationsFromComponentGlyphs answers for a base glyph what the recursion answers: whatever is
+    stored under a key is the result of the recursive call for that key, so a memo hit and a memo miss contribute the same
+    locations (a memo holding less makes every composite after the first one miss the nested locations)."""
+    ix = prog.ix
+    col = ix.get_method(BASE_IFILTER, "locationsFromComponentGlyphs", own=True)
+
+    def is_memo(e):
+        return isinstance(e, ast.AST) and every_origin(prog, col, e, lambda x, ff: isinstance(x, ast.Attribute) and x.attr == "componentLocations", allow_const=False)[0]
+    stores = []  # (node, key expr, value expr)
+    for s_, t, v in subscript_stores(col):
+        if is_memo(t.value) and v is not None:
+            stores.append((s_, t.slice, v))
+    for c in A.calls_in(col.node):
+        if isinstance(c.func, ast.Attribute) and c.func.attr in ("setdefault", "update", "__setitem__") and is_memo(c.func.value):
+            need(c.func.attr != "update" and len(c.args) == 2, f"cannot interpret {col.short}: `{T(c, 60)}`")
+            stores.append((c, c.args[0], c.args[1]))
+    need(stores, f"cannot interpret {col.short}: the memo is never filled")
+    for node, k, v in stores:
+        def full(x, ff):
+            return isinstance(x, ast.Call) and isinstance(x.func, ast.Attribute) and x.func.attr == col.name and x.args and T(x.args[0]) == T(k)
+        ok = every_origin(prog, col, v, full, allow_const=False)[0]
+        chk.ob(rule, f"{col.short}|memo[{T(k, 20)}] holds the recursion's answer for that glyph", bool(ok), where(col, node), detail=T(node, 80),
+               message=f"{col.short}: `{T(node, 80)}` memoises for `{T(k, 20)}` something else than {col.name}({T(k, 20)}, ...): a later composite that shares this base glyph takes the memoised "
+                       f"value and misses the locations of the glyphs nested in it, so it is not interpolated into every master that the decomposition needs")
+    chk.minimum(rule, 1)
+
+
 MUTANTS = [
+    M("location memo holds the base glyph's own locations only (seeded C09m)", "ufo2ft/filters/base.py", "BaseIFilter.locationsFromComponentGlyphs",
+      "locations |= self.glyphSourceLocations(baseGlyph)\nlocations |= cache[baseGlyph] if baseGlyph in cache else cache.setdefault(baseGlyph, self.locationsFromComponentGlyphs(baseGlyph, include))",
+      "if baseGlyph not in cache:\n    cache[baseGlyph] = self.glyphSourceLocations(baseGlyph)\n    locations |= self.locationsFromComponentGlyphs(baseGlyph, include)\nlocations |= cache[baseGlyph]", rule="R09.14"),
+    M("location memo filled by subscript store", "ufo2ft/filters/base.py", "BaseIFilter.locationsFromComponentGlyphs",
+      "locations |= cache[baseGlyph] if baseGlyph in cache else cache.setdefault(baseGlyph, self.locationsFromComponentGlyphs(baseGlyph, include))",
+      "if baseGlyph not in cache:\n    cache[baseGlyph] = self.locationsFromComponentGlyphs(baseGlyph, include)\nlocations |= cache[baseGlyph]", kind="equiv"),
     M("overlap removal wired into the interpolatable CFF pre-processor through a shared helper (seeded C09l)", "ufo2ft/preProcessor.py", "OTFInterpolatablePreProcessor.initDefaultFilters",
       "filters.append(decompose)", "filters.append(decompose)\n_init_remove_overlaps_filter(filters)", rule="R09.1",
       also=(("ufo2ft/preProcessor.py", "", "<append-module>", "def _init_remove_overlaps_filter(filters):\n    from ufo2ft.filters.removeOverlaps import RemoveOverlapsFilter\n    filters.append(RemoveOverlapsFilter())\n"),)),
